@@ -70,6 +70,19 @@ pub fn oracle_with(c: &FieldCase, obs: &mut Obs, judge_undetermined: bool) -> Ve
     }
     if let Ok(v) = &res {
         obs.class("accepted");
+        // whatever reading the parser chose, a repeated component may not come out with zero elements:
+        // every k*Nx part of a documented format has at least one line (absent optional parts are null)
+        if !c.content.is_empty() {
+            if let Some(key) = empty_component(&v.json, "") {
+                out.push(viol(
+                    format!("C05|{}|empty-component|{}", c.ty, key),
+                    format!(
+                        "content {:?} accepted with an empty component {}: {}",
+                        c.content, key, v.json
+                    ),
+                ));
+            }
+        }
         if verdict == Verdict::MustAccept
             || (judge_undetermined && verdict == Verdict::Undetermined)
         {
@@ -104,6 +117,23 @@ pub fn oracle_with(c: &FieldCase, obs: &mut Obs, judge_undetermined: bool) -> Ve
         }
     }
     out
+}
+
+/// path of the first empty array inside a field value's JSON
+fn empty_component(v: &Value, cur: &str) -> Option<String> {
+    match v {
+        Value::Array(a) if a.is_empty() => Some(cur.to_string()),
+        Value::Array(a) => a.iter().find_map(|x| empty_component(x, cur)),
+        Value::Object(o) => o.iter().find_map(|(k, x)| {
+            let key = if k.chars().next().map(|c| c.is_ascii_digit()).unwrap_or(false) {
+                cur.to_string() // option-enum wrapper key such as "52D"
+            } else {
+                k.clone()
+            };
+            empty_component(x, &key)
+        }),
+        _ => None,
+    }
 }
 
 /// letters of `input` that `output` no longer has (as a multiset), or has in addition
